@@ -479,7 +479,7 @@ func ChecksTryTransformers() []Check {
 			s := c.Seq()
 			k := c.Kl()
 			c.Site("try.Traverse_")
-			err := try.Traverse_(iterator.FromSeq(s), func(v int) fp.Try[int] { return BuildTry(k.At(v), IdInt) })
+			err := try.Traverse_(IterOf(s), func(v int) fp.Try[int] { return BuildTry(k.At(v), IdInt) })
 			got := "ok(unit)@0"
 			if err != nil {
 				got = "F" + ErrIdx(err) + "@0"
